@@ -76,8 +76,16 @@ func c19Gen(t *rapid.T) c19In {
 		in.B2 = c19Bytes(t, "data", 65527)
 	case "Certificate", "Encrypted", "Nonce":
 		in.B1 = c19Bytes(t, "data", 65530)
+		if in.Builder == "Certificate" && rapid.IntRange(0, 4).Draw(t, "cert.pem") == 4 {
+			in.B1 = model.Bytes("-----BEGIN CERTIFICATE-----\nMIIBszCCAVmgAwIBAgIUQ0FGRUJBQkU=\n-----END CERTIFICATE-----\n")
+			in.U8a = rapid.SampledFrom([]uint8{4, 4, 1, 7, 12}).Draw(t, "cert.enc")
+		}
 	case "KeyExchange", "IDi", "IDr", "Authentication":
 		in.B1 = c19Bytes(t, "data", 65527)
+		if (in.Builder == "IDi" || in.Builder == "IDr") && rapid.IntRange(0, 3).Draw(t, "id.text") == 3 {
+			in.B1 = model.Bytes(rapid.SampledFrom([]string{"Host.Example.ORG", "User@Example.ORG", "gw.example.org.", "UPPER"}).Draw(t, "id.textdata"))
+			in.U8a = rapid.SampledFrom([]uint8{2, 3, 11, 1}).Draw(t, "id.type")
+		}
 	case "ConfigurationAttribute":
 		in.B1 = c19Bytes(t, "data", 65527)
 		in.U16a &= 0x7fff // the attribute type is a 15-bit field; larger numbers are outside the builder's domain
@@ -92,6 +100,17 @@ func c19Gen(t *rapid.T) c19In {
 			n = rapid.SampledFrom([]int{65514, 65515, 65516, 65534, 65535, 65536, 70000}).Draw(t, "nas.n2")
 		}
 		in.B1 = gen.Fill(t, "nas", n)
+		switch rapid.IntRange(0, 5).Draw(t, "nas.content") {
+		case 4:
+			in.B1[0] = rapid.SampledFrom([]byte{0x7e, 0x2e}).Draw(t, "nas.epd") // a real NAS message starts with its protocol discriminator
+		case 5:
+			// a PDU that itself looks like EAP-5G vendor data (message id 2, spare, a 16-bit length that fits, a NAS message):
+			// the builder frames what it is given, whatever that looks like
+			if n >= 5 && n <= 65535 {
+				in.B1[0], in.B1[1], in.B1[2], in.B1[3] = 2, 0, byte((n-4)>>8), byte(n-4)
+				in.B1[4] = rapid.SampledFrom([]byte{0x7e, 0x2e}).Draw(t, "nas.epd")
+			}
+		}
 	case "Notify5G_QOS_INFO":
 		n := rapid.IntRange(0, 20).Draw(t, "qfi.n")
 		if rapid.IntRange(0, 3).Draw(t, "qfi.big") == 3 {
@@ -299,6 +318,34 @@ func c19Oracle1(in c19In, cp func(b model.Bytes) []byte) probe.Outcome {
 		s := c[1]
 		if s.TSType != ty || s.IPProtocolID != in.U8a || s.StartPort != in.U16a || s.EndPort != in.U16b || !bytes.Equal(s.StartAddress, in.B1) || !bytes.Equal(s.EndAddress, in.B2) {
 			return probe.Fail("traffic selector fields differ from the arguments: %+v", *s)
+		}
+		// one more selector that continues the range of the one just built (same type, protocol, ports; start = previous end + 1),
+		// and the very same selector again: each call appends one element and leaves the earlier ones alone
+		{
+			next := append([]byte(nil), in.B2...)
+			for i := len(next) - 1; i >= 0; i-- {
+				next[i]++
+				if next[i] != 0 {
+					break
+				}
+			}
+			end := append([]byte(nil), next...)
+			end[len(end)-1] |= 0x0f
+			if err := probe.Try(func() error {
+				c.BuildIndividualTrafficSelector(ty, in.U8a, in.U16a, in.U16b, cp(next), cp(end))
+				c.BuildIndividualTrafficSelector(ty, in.U8a, in.U16a, in.U16b, cp(next), cp(end))
+				return nil
+			}); err != nil {
+				return probe.Fail("panic: %v", err)
+			}
+			if len(c) != 4 {
+				return probe.Fail("two further BuildIndividualTrafficSelector calls (a range adjacent to the previous one, then the same again) appended %d elements, want 2", len(c)-2)
+			}
+			if !bytes.Equal(c[1].StartAddress, in.B1) || !bytes.Equal(c[1].EndAddress, in.B2) || !bytes.Equal(c[2].StartAddress, next) || !bytes.Equal(c[2].EndAddress, end) ||
+				!bytes.Equal(c[3].StartAddress, next) || !bytes.Equal(c[3].EndAddress, end) {
+				return probe.Fail("building a selector adjacent to the previous one changed an earlier selector or did not store its arguments")
+			}
+			c = c[:2]
 		}
 		mp, err := c19Wire(&message.TrafficSelectorInitiator{TrafficSelectors: c})
 		if err != nil {
